@@ -327,6 +327,11 @@ func (vfs *MemFS) Link(oldname, newname string) error {
 	}
 
 	nParent, _, pi, nerr := vfs.searchNode(newname, slmLstat)
+	if nParent == nil {
+		// The volume of the new name does not exist.
+		return &os.LinkError{Op: op, Old: oldname, New: newname, Err: nerr}
+	}
+
 	if !vfs.isNotExist(nerr) {
 		if vfs.OSType() == avfs.OsWindows {
 			nerr = avfs.ErrWinAlreadyExists
@@ -461,6 +466,11 @@ func (vfs *MemFS) MkdirAll(path string, perm fs.FileMode) error {
 		return nil
 	case *fileNode:
 		return &fs.PathError{Op: op, Path: pi.LeftPart(), Err: vfs.err.NotADirectory}
+	}
+
+	if parent == nil {
+		// The volume does not exist.
+		return &fs.PathError{Op: op, Path: path, Err: err}
 	}
 
 	parent.mu.Lock()
@@ -778,7 +788,7 @@ func (vfs *MemFS) Rename(oldpath, newpath string) error {
 	}
 
 	nParent, nChild, nPI, nErr := vfs.searchNode(newpath, slmLstat)
-	if nErr != vfs.err.FileExists && !vfs.isNotExist(nErr) {
+	if (nErr != vfs.err.FileExists && !vfs.isNotExist(nErr)) || nParent == nil {
 		return &os.LinkError{Op: op, Old: oldpath, New: newpath, Err: nErr}
 	}
 
@@ -927,7 +937,7 @@ func (vfs *MemFS) Symlink(oldname, newname string) error {
 	const op = "symlink"
 
 	parent, _, pi, nerr := vfs.searchNode(newname, slmLstat)
-	if !vfs.isNotExist(nerr) {
+	if !vfs.isNotExist(nerr) || parent == nil {
 		return &os.LinkError{Op: op, Old: oldname, New: newname, Err: nerr}
 	}
 
